@@ -311,6 +311,7 @@ func (s *Server) Subscribe(stream pb.GNMI_SubscribeServer) error {
 		remove := addSubscription(s.m, c.sr.GetSubscribe(),
 			&matchClient{acl: c.acl, q: c.queue})
 		defer remove()
+		verifPoint("subscribe:registered")
 		if !c.sr.GetSubscribe().GetUpdatesOnly() {
 			go s.processSubscription(&c)
 		}
@@ -406,6 +407,7 @@ func (s *Server) processSubscription(c *streamClient) {
 		log.V(2).Infof("end processSubscription for %p", c)
 	}()
 	if !c.sr.GetSubscribe().GetUpdatesOnly() {
+		verifPoint("process:before-walk")
 		for _, subscription := range c.sr.GetSubscribe().Subscription {
 			var fullPath []string
 			fullPath, err = path.CompletePath(c.sr.GetSubscribe().GetPrefix(), subscription.GetPath())
@@ -427,6 +429,7 @@ func (s *Server) processSubscription(c *streamClient) {
 		}
 	}
 
+	verifPoint("process:before-sync")
 	_, err = c.queue.Insert(syncMarker{})
 }
 
@@ -502,6 +505,7 @@ func (s *Server) sendStreamingResults(c *streamClient) {
 		}
 	}()
 	for {
+		verifPoint("send:before-next")
 		item, dup, err := c.queue.Next(ctx)
 		if coalesce.IsClosedQueue(err) {
 			c.errC <- nil
